@@ -115,4 +115,15 @@ let () = iter_lines (fun line ->
                 print_endline ("x" ^ String.concat "" (List.map (fun (c, d) ->
                     Printf.sprintf " m %d %d %s ;" (int_of_z c) (zlen d) (fnv d)) segs)))
        | _ -> print_endline "err")
+  | [ "tjx"; sm; cn; wj; wa; dicc; hx ] ->
+      (match unhex hx with
+       | _ :: _ :: rest ->
+           let smz = z_of_int (int_of_string sm) in
+           (match read_app_markers (nat_of_int 100000) (copy_setup (tj_setup_option smz (cn = "1")) cfg_init) hinfo_init [] rest with
+            | None -> print_endline "err"
+            | Some ((_, ms), _) ->
+                let segs = tj_transform_extras smz (cn = "1") (wj = "1") (wa = "1") ms (unhex dicc) in
+                print_endline ("x" ^ String.concat "" (List.map (fun (c, d) ->
+                    Printf.sprintf " m %d %d %s ;" (int_of_z c) (zlen d) (fnv d)) segs)))
+       | _ -> print_endline "err")
   | _ -> print_endline "-")
